@@ -5,6 +5,7 @@ go 1.23
 require (
 	github.com/anishathalye/porcupine v1.3.0
 	github.com/gorilla/mux v1.8.1
+	github.com/gorilla/websocket v1.5.3
 	github.com/inbucket/inbucket/v3 v3.0.0
 	github.com/rs/zerolog v1.33.0
 	github.com/yuin/gopher-lua v1.1.1
@@ -18,7 +19,6 @@ require (
 	github.com/cosmotek/loguago v1.0.0 // indirect
 	github.com/gogs/chardet v0.0.0-20211120154057-b7413eaefb8f // indirect
 	github.com/gorilla/css v1.0.1 // indirect
-	github.com/gorilla/websocket v1.5.3 // indirect
 	github.com/inbucket/gopher-json v0.2.0 // indirect
 	github.com/jaytaylor/html2text v0.0.0-20230321000545-74c2419ad056 // indirect
 	github.com/jhillyerd/enmime/v2 v2.0.0 // indirect
